@@ -478,6 +478,45 @@ func demuxOutcome(k string, unit []byte) (tables []M, errs int, panicked bool) {
 	return
 }
 
+// demuxOutcomeAfterClean: the clean unit and then the faulted one (a damaged repetition, as on a noisy link) through ONE Demuxer; what is
+// delivered behind the clean unit's own tables
+func demuxOutcomeAfterClean(k string, unit, faulted []byte, nclean int) (tables []M, errs int, panicked bool) {
+	var stream []byte
+	pid := pidForKind(k)
+	if k == "pmt" {
+		stream = append(stream, packetise(0, patFor(pid), 0)...)
+	}
+	first := packetise(pid, unit, 3)
+	stream = append(stream, first...)
+	stream = append(stream, packetise(pid, faulted, 3+len(first)/188)...)
+	dmx := astits.NewDemuxer(context.Background(), bytes.NewReader(stream), astits.DemuxerOptPacketSize(188))
+	seen := 0
+	for i := 0; i < len(stream)/188+20; i++ {
+		var d *astits.DemuxerData
+		var err error
+		if pn := safeCall(func() { d, err = dmx.NextData() }); pn != nil {
+			return tables, errs, true
+		}
+		if err == astits.ErrNoMorePackets {
+			return
+		}
+		if err != nil {
+			errs++
+			continue
+		}
+		if int(d.PID) != pid {
+			continue
+		}
+		seen++
+		if seen <= nclean {
+			continue
+		}
+		e := projDeliver(d)
+		tables = append(tables, M{"kind": e["kind"], "cdg": e["cdg"]})
+	}
+	return
+}
+
 func runPSI(line []byte, rec *recorder) {
 	var sc psiScenario
 	if err := json.Unmarshal(line, &sc); err != nil {
@@ -610,6 +649,18 @@ func runPSI(line []byte, rec *recorder) {
 		for i := 0; i < sc.N; i++ {
 			k := []string{"pat", "pmt"}[i%2]
 			m := randTable(r, k, r.intn(5), r.pick(0, 12, 40))
+			if k == "pmt" && i%4 == 1 {
+				// one descriptor at the top of the 8-bit descriptor_length range (body of 253, 254 or 255 bytes) in the program loop or an
+				// elementary stream's loop: every enclosing length moves by the full 2 + body bytes
+				big := &astits.Descriptor{Tag: uint8(0x80 + r.intn(0x7f)), UserDefined: r.bytes([]int{254, 255, 253}[(i/4)%3])}
+				big.Length = uint8(len(big.UserDefined))
+				if len(m.PMT.ElementaryStreams) > 0 && r.boolean() {
+					es := m.PMT.ElementaryStreams[r.intn(len(m.PMT.ElementaryStreams))]
+					es.ElementaryStreamDescriptors = append(es.ElementaryStreamDescriptors, big)
+				} else {
+					m.PMT.ProgramDescriptors = append([]*astits.Descriptor{big}, m.PMT.ProgramDescriptors...)
+				}
+			}
 			ptr := r.pick(0, 0, 2, 9)
 			sec := &astits.PSISection{Header: &astits.PSISectionHeader{TableID: astits.PSITableID(m.TID), SectionSyntaxIndicator: m.SSI, PrivateBit: m.Priv, SectionLength: uint16(1 + r.intn(100))},
 				Syntax: &astits.PSISectionSyntax{Header: &astits.PSISectionSyntaxHeader{TableIDExtension: uint16(m.Ext), VersionNumber: uint8(m.Ver), CurrentNextIndicator: m.CNI,
@@ -776,6 +827,15 @@ func runPSI(line []byte, rec *recorder) {
 				c := append([]byte(nil), unit...)
 				c[bit/8] ^= 0x80 >> uint(bit%8)
 				emit("bit-flip", bit, c)
+				if !big && !opan && oerrs == 0 && len(orig) == len(ms) && bit%2 == i%2 {
+					// the same fault as a damaged repetition of a unit this very Demuxer has just accepted
+					tabs, errs, pan := demuxOutcomeAfterClean(k, unit, c, len(orig))
+					got := []string{}
+					for _, t := range tabs {
+						got = append(got, t["cdg"].(string))
+					}
+					rec.ev(M{"ev": "cvec", "class": "bit-flip-in-a-repetition", "k": k, "pos": bit, "b": ints(c), "tabs": got, "errs": errs, "panic": pan})
+				}
 			}
 			for j := 0; j < 12; j++ {
 				c := append([]byte(nil), unit...)
